@@ -330,6 +330,35 @@ def gen_duplication():
             yield u1.format(L=L, L2=L2, L3=L3) + " " + u2.format(L=L, L2=L2, L3=L3) + show, ["a(1,2). a(2,3). b(2,3). b(3,1). c(1). c(3). d(1).", "a(1,1). a(2,1). b(1,2). b(1,1). c(2). d(2).", "a(1,2). c(1)."]
 
 
+def gen_duplication2():
+    """assignments (X = t, intervals, pools) in statements that share a literal set: duplication substitutes
+    assignments before it matches, and restores statements it does not rewrite"""
+    show = " #show r/1. #show s/1. #show r/0."
+    assigns = ["X = 1..2", "X = (1;3)", "X = Y + 1", "X = 2", "X = Y"]
+    for asg in assigns:
+        for rule in ("r(X) :- p(X), q(X), {A}, a, b.", "r(X) :- p(X), {A}, a, b, c(Y).", "r(X) :- {A}, a, b, not q(X), p(X).", ":~ p(X), q(X), {A}, a, b. [X@1,X]", "r :- a, b, N = #count{{X : p(X), {A}}}, N > 0."):
+            for other in ("s(Y) :- c(Y), a, b.", "s(1) :- a, b.", "s(Y) :- c(Y), a, b, Y = 1..3."):
+                yield rule.format(A=asg) + " " + other + show, ["p(1). q(2). a. b. c(1).", "p(1). p(2). q(2). q(3). a. b. c(2).", "p(3). q(3). a. c(3)."]
+
+
+def gen_sum_chains3():
+    """compound terms at a group position of the at-most-one atom"""
+    show = " #show start/2. #show load/1."
+    for head in ("{ start(op(J,O),T) : time(T) } 1 :- op(J,O).", "{ start(f(J),T) : time(T) } 1 :- op(J,_).", "{ start((J,O),T) : time(T) } 1 :- op(J,O)."):
+        for use in ("load(S) :- S = #sum{T,J : start(op(J,O),T)}.", "load(S) :- S = #sum{T,J,O : start(op(J,O),T)}.", "#minimize{T,J : start(op(J,O),T)}.", "#minimize{T,J,O : start(op(J,O),T)}.", "load(S) :- S = #sum{T,J : start(f(J),T)}.", "load(S) :- S = #sum{T : start(f(J),T)}.", "load(S) :- S = #sum{T,J : start((J,O),T)}.", "load(S) :- S = #sum{T,X : start(X,T)}."):
+            yield "op(1,1). op(1,2). op(2,1). time(1..2). " + head + " " + use + show, [""]
+
+
+def gen_unused4():
+    """argument positions that are only read through compound terms with anonymous / singleton variables"""
+    show = " #show out/1. #show e/2."
+    defs = ["p(X,f(Y)) :- e(X,Y). p(X,g(Y)) :- e(Y,X).", "p(X,f(Y)) :- e(X,Y). p(X,Y) :- e(Y,X).", "p(X,(Y,1)) :- e(X,Y). p(X,(Y,2)) :- e(Y,X).", "p(X,f(Y)) :- e(X,Y)."]
+    uses = ["out(X) :- p(X,f(_)).", "out(X) :- p(X,f(Y)).", "out(X) :- p(X,g(_)).", "out(X) :- p(X,(_,1)).", "out(X) :- p(X,_).", ":- p(X,f(_)), X > 1. out(X) :- e(X,_).", ":~ p(X,f(_)). [1@1,X] out(X) :- e(X,_).", "out(X) :- p(X,f(Y)), Y > 1."]
+    for d_ in defs:
+        for u in uses:
+            yield "{e(1..2,1..2)}. " + d_ + " " + u + show, [""]
+
+
 GENERATORS = {
     "duplication": gen_duplication,
     "none": gen_none,
@@ -346,10 +375,11 @@ GENERATORS = {
 EXTRA = {
     "cleanup": [gen_cleanup2, gen_cleanup3],
     "projection": [gen_projection2],
-    "unused": [gen_unused2, gen_unused3],
+    "unused": [gen_unused2, gen_unused3, gen_unused4],
+    "duplication": [gen_duplication2],
     "math": [gen_math2],
     "minmax_chains": [gen_minmax2],
-    "sum_chains": [gen_sum_chains2],
+    "sum_chains": [gen_sum_chains2, gen_sum_chains3],
     "inline": [gen_inline2],
 }
 
